@@ -44,6 +44,11 @@ def run(chk: Check) -> None:
     sub = chk.sub()
     _validation(sub)
     chk.adopt(sub, lambda o: o.construct.startswith("ByteInterval."), "R19.2")
+    from .c02 import _facts, _write_conditions
+    schema, pf = _facts(chk)
+    sub = chk.sub()
+    _write_conditions(sub, schema, pf, ["ByteInterval"])
+    chk.adopt(sub, None, "R19.1")
 
 
 def _initialized_size(chk: Check, bi) -> None:
